@@ -21,7 +21,10 @@ RULE = ('spec trees of depth <= 3 (quick) / 4 (thorough) mixing tuple, Pipe, dic
         'every reader saw), ordered call log, the caller mapping before/after, equality of the two calls. non-trivial = '
         'at least one binder and one reader; distinct = distinct (target, spec, scope)')
 TRUSTED = ['Python primitives are parameters (`Prims`), validated by the correspondence only']
-ASSUMPTIONS = ['lazily evaluated generators (Iter) capture a scope and run later: C17; here the eager fragment',
+ASSUMPTIONS = ['a lazily evaluated stream (Iter(sub) / Iter().map(sub)) is modelled by evaluating its items in the scope of the '
+               'place where it is written (the frame the generator captures), the consumer forcing it: exact for bindings '
+               '(enumerated placements), not for S.globals / Vars written between creation and consumption; the other Iter '
+               'stages are C17',
                'Regex named groups as binders are not generated (the regex engine is outside the model)']
 MANIFEST = dict(
     text=("Lean 4 refinement theorem c07_refines_lexical: for every scope representation satisfying 24 lexical-scoping laws, "
@@ -85,6 +88,17 @@ def placements():
             {'k': 'tuple', 'xs': [b, {'k': 'tuple', 'xs': [{'k': 'sBind', 'bs': [['k1', {'k': 'lit', 'v': {'s': 'inner'}}]]}, r]}, r]},
             {'k': 'call', 'func': {'k': 'fn', 'name': 'f1', 'kind': 'pack'}, 'args': {'k': 'tuple', 'xs': [{'k': 'specW', 's': {'k': 'tuple', 'xs': [b, r]}, 'scope': []}, r]}, 'kwargs': {'k': 'dict', 'es': []}},
         ]
+        if name != 'G':
+            # a lazily evaluated stream captures the scope of the place where it is written: a binding made
+            # before it is visible to its items, one made between its creation and its consumption is not
+            # (S.globals is shared mutable state, by design visible whenever the stream runs: not enumerated)
+            L12 = V({'l': [{'i': 1}, {'i': 2}]})
+            LIST = {'k': 'ty', 'name': 'list'}
+            shapes += [
+                {'k': 'pipe', 'xs': [L12, b, {'k': 'iter', 's': r, 'map': False}, LIST]},
+                {'k': 'pipe', 'xs': [L12, {'k': 'iter', 's': r, 'map': False}, b, LIST]},
+                {'k': 'pipe', 'xs': [L12, {'k': 'fill', 's': {'k': 'iter', 's': r, 'map': True}}, b, LIST, r]},
+            ]
         for sh in shapes:
             for scope in ([], [['k1', {'s': 'outer'}]]):
                 yield {'spec': sh, 'target': {'i': 4}, 'scope': scope}
